@@ -6,8 +6,16 @@ Model: Tahoe/Immutable/Integrity.lean — `verifyShare` = `Checker._download_and
 `ValidatedExtendedURIProxy`, `ValidatedReadBucketProxy`), `formatResults` = `Checker._format_results`,
 `Store` / `allocate` / `closeWriter` / `repairOn` = the abstract storage behaviour repair relies on (refined by the
 storage server, C22); repair itself is download (C02) followed by `upload` with the parameters of the cap.
-`VCfg.asIs` is the verifier as it is in /repo, `VCfg.repaired` the verifier with
-fixes/C45-verify-block-root.diff (the block hash tree root is taken from the validated share hash leaf). -/
+`VCfg.asIs` is the verifier as it was before the fix, `VCfg.repaired` the verifier as it is in /repo now (fix fb3513d =
+fixes/C45-verify-block-root.diff: the block hash tree root is taken from the validated share hash leaf).
+
+As built: 11 theorems — `verified_good_implies_all_valid` (+ `verified_good_counterexample` for the old verifier),
+`healthy_iff_N_good`, `recoverable_iff_k_good`, `corrupt_shares_listed`, `noverify_believes_servers`,
+`recoverable_unhealthy_repair_attempted`, `repair_uses_original_parameters`, `repair_regenerates_identical_shares`,
+`post_repair_healthy_implies_N_good`, `repair_never_alters_good_shares`. Further model parts: `checkServerShares` /
+`checkNoVerify`, `repairDecision`, `repairParams`, `gatherRepairResults`, `corruptLocators`. Driver lean/Drv/C45.lean
+(`veup`, `fmt`, `fmtlists`, `noverify`, `verify`, `repairdecision`, `repairparams`, `postrepair`, `repair`) ties each
+of them to the code. Still monitor only: that the file can be read from the repaired shares alone. -/
 /-! ## Coverage of the statement (properties.jsonl, C45)
 
 | clause of the statement | theorem(s) over the model |
